@@ -51,6 +51,8 @@ pub fn gen_prelude(rng: &mut Rng) -> Option<OptCfg> {
         max_step: *rng.pick(&[0.5, 1.0, 5.0, 0.01]),
         convergence: *rng.pick(&[None, Some(1e9), Some(1e-3)]),
         seed: rng.below(1 << 32),
+        order: 0,
+        prior: None,
     })
 }
 
@@ -119,6 +121,8 @@ pub fn gen_cfg(rng: &mut Rng, tier: Tier, kt0: bool) -> OptCfg {
         max_step: *rng.pick(&[0.0, 1e-3, 0.01, 0.01, 0.1, 0.5, 1.0, 2.5, 5.0, 1e-7]),
         convergence: *rng.pick(&[None, None, None, Some(0.0), Some(1e-6), Some(1e-2)]),
         seed: rng.below(1 << 32),
+        order: if rng.chance(0.5) { 1 + rng.below(1 << 20) } else { 0 },
+        prior: if rng.chance(0.25) { Some((*rng.pick(&[1u64, 10, 100_000]), *rng.pick(&[1u64, 7, 100_000]))) } else { None },
     }
 }
 
@@ -186,6 +190,11 @@ fn shrink_common_inner(j: &J) -> Vec<J> {
         p.zero_width = 0.0;
         out.push(scen(&p, &ls, &cfg));
     }
+    if ps.outside != 0.0 {
+        let mut p = ps.clone();
+        p.outside = 0.0;
+        out.push(scen(&p, &ls, &cfg));
+    }
     // simpler landscape
     if ls.holes != 0.0 {
         let mut l = ls.clone();
@@ -221,6 +230,12 @@ fn shrink_common_inner(j: &J) -> Vec<J> {
     if cfg.kt_ratio.is_some() {
         let mut c = cfg.clone();
         c.kt_ratio = None;
+        out.push(scen(&ps, &ls, &c));
+    }
+    if cfg.order != 0 || cfg.prior.is_some() {
+        let mut c = cfg.clone();
+        c.order = 0;
+        c.prior = None;
         out.push(scen(&ps, &ls, &c));
     }
     if cfg.seed > 3 {
@@ -277,6 +292,10 @@ pub fn base_out(run: &E1Run, tr: &Trace) -> RunOut {
     out.count("probe.hypothesis_set_size_ge2", (tr.max_hyps >= 2) as u64);
     out.count("probe.hypothesis_set_size_ge3", (tr.max_hyps >= 3) as u64);
     out.count("probe.tracker_saturated", tr.saturated_at.is_some() as u64);
+    out.count(
+        "fault.F-outside(start values outside their declared range)",
+        run.x0.iter().enumerate().filter(|(i, b)| { let v = f64::from_bits(**b); let (lo, hi) = run.bounds[*i]; v < lo || v > hi }).count() as u64,
+    );
     out.count("probe.run_panicked", run.panic.is_some() as u64);
     out.nontrivial = (acc > 0 && rej > 0) || invalid > 0 || clamp > 0;
     out
@@ -379,7 +398,8 @@ impl Check for C06 {
         }
     }
     fn generate(&self, rng: &mut Rng, tier: Tier, _i: u64) -> J {
-        let ps = gen_params(rng, &[(1, 2), (2, 3), (3, 3), (6, 3), (64, 1)]);
+        let mut ps = gen_params(rng, &[(1, 2), (2, 3), (3, 3), (6, 3), (64, 1)]);
+        ps.outside = *rng.pick(&[0.0, 0.0, 0.0, 0.3, 1.0]);
         let ls = gen_land_general(rng, true);
         let mut cfg = gen_cfg(rng, tier, false);
         cap_for_n(&ps, &mut cfg);
@@ -568,7 +588,8 @@ pub fn c05_verdict(run: &E1Run, tr: &Trace, out: &mut RunOut) {
 }
 
 pub fn gen_c05_e1(rng: &mut Rng, tier: Tier) -> J {
-    let ps = gen_params(rng, &[(1, 1), (2, 3), (3, 3), (6, 3), (64, 1)]);
+    let mut ps = gen_params(rng, &[(1, 1), (2, 3), (3, 3), (6, 3), (64, 1)]);
+    ps.outside = *rng.pick(&[0.0, 0.0, 0.0, 0.3, 1.0]);
     let ls = gen_land_general(rng, false);
     let mut cfg = gen_cfg(rng, tier, true);
     // cross kt_finish / kt_ratio explicitly
